@@ -178,7 +178,7 @@ def env_table(names, ct: common.ClassTable, ft: FuncTable) -> str:
 def class_name_table(ct: common.ClassTable) -> str:
     rows = []
     for c, n in sorted(ct.code.items(), key=lambda kv: kv[1]):
-        m = c.__dict__.get("__module__", getattr(c, "__module__", None))
+        m = getattr(c, "__module__", None)     # what encoding.py reads (type.__dict__["__module__"] is a descriptor)
         q = getattr(c, "__qualname__", None)
         m = m if isinstance(m, str) else "?no-module"
         q = q if isinstance(q, str) else "?no-qualname"
